@@ -389,10 +389,13 @@ impl Installation {
 
         let encoding_key = EncodingKey::from_bytes(encoding_key_bytes);
 
-        // Update indices with the content-addressable encoding key
+        // Update indices with the content-addressable encoding key and
+        // persist them: the archive data is already on disk, without the
+        // index entry it cannot be found after the installation is reopened.
         {
             let mut index_manager = self.index_manager.write().await;
             index_manager.add_entry(&encoding_key, archive_id, archive_offset, size)?;
+            index_manager.save_all()?;
         }
 
         info!(
